@@ -28,7 +28,7 @@ Section Texts.
 
   Ltac fstep :=
     lazy beta iota zeta delta
-      [run_rule run_check_str rexec rexec_list reval rcall bind strs rset rempty fn_body check_str_err rkind
+      [run_rule run_check_str rexec rexec_list reval rcall bind strs rset rempty fn_body check_str_err rkind kind_is
        fn_Phone fn_Email fn_IDCard fn_Ip fn_Ipv4 fn_Ipv6 fn_Year fn_Year2Month fn_Date fn_Prefix fn_Suffix fn_CheckFieldIsStr
        width_name String.append String.eqb Ascii.eqb Bool.eqb andb orb negb fst snd];
     cbn [str_eqb value_string].
@@ -146,7 +146,7 @@ Section Texts.
 
   Ltac gstep2 :=
     lazy beta iota zeta delta
-      [run_rule rexec rexec_list reval rcall bind strs rset rempty fn_body check_str_err rkind kind_name_is_int existsb
+      [run_rule rexec rexec_list reval rcall bind strs rset rempty fn_body check_str_err rkind kind_is kind_name_is_int existsb
        fn_Int fn_Float fn_Json fn_File fn_Dir
        width_name String.append String.eqb Ascii.eqb Bool.eqb andb orb negb fst snd];
     cbn [str_eqb value_string kind is_num_kind].
